@@ -113,6 +113,29 @@ func init() {
 					p.Scn.DurationSec = 600
 				}
 				p.Heal.On = true
+			} else if tier != "enum-base" && len(p.Ops) > 0 && rapid.IntRange(0, 4).Draw(t, "failed-then-held") == 0 {
+				// the first claim attempt fails, the pay loop's second attempt is held by the peer (and
+				// settles or fails minutes later); the taker restarts while that HTLC is in flight and
+				// has to find out from its Lightning node what became of its attempts
+				op := p.Ops[0]
+				taker, claim := op.Node, 2
+				if op.Kind == "swapin" {
+					taker, claim = 1-op.Node, 1
+				}
+				p.Scn.BlockEverySec, p.Scn.LBlockEverySec = 5, 5
+				p.Scn.LNLatencyMs = 200
+				second := world.LNFault{Idx: claim + 1, Kind: pick(t, "fhkind", []string{"delay", "delay", "hold"}), DelayMs: pick(t, "fhdelay", []int{60000, 150000, 240000})}
+				p.LN = []world.LNFault{{Idx: claim, Kind: "fail", DelayMs: pick(t, "fhfail", []int{0, 2000})}, second}
+				p.Crashes, p.Net, p.Silence, p.Adv, p.Faults, p.Chain = nil, nil, nil, nil, nil, nil
+				payAt := 5000*3 + 10000
+				if op.Chain == "lbtc" {
+					payAt = 5000*2 + 10000
+				}
+				p.Ops = append(p.Ops[:1], world.Op{AtMs: op.AtMs + payAt + pick(t, "fhcrash", []int{12000, 15000, 25000, 50000}), Node: taker, Kind: "crash", N: int64(pick(t, "fhdown", []int{500, 5000, 30000}))})
+				if p.Scn.DurationSec < 900 {
+					p.Scn.DurationSec = 900
+				}
+				p.Heal.On = true
 			}
 			return p
 		},
